@@ -43,6 +43,9 @@ theorem load_db (w : World) (u : User) (self : Flav) :
   let h := loadFrom_db u self (allStacks w.nst) Spec.empty [] w
   ⟨h.1, h.2.1, h.2.2.1⟩
 
+theorem load_touch (w : World) (u : User) (self : Flav) : (load w u self).2.2.touch = w.touch :=
+  (loadFrom_db u self (allStacks w.nst) Spec.empty [] w).2.2.2
+
 /-! ## the database after a trace -/
 
 theorem applyW_db (fixed : Bool) (u : User) (wm : World × Spec) (e : Eff) :
@@ -77,6 +80,7 @@ theorem applyW_db (fixed : Bool) (u : User) (wm : World × Spec) (e : Eff) :
   | memAssign _ _ _ _ _ => exact Or.inl rfl
   | memUnassign _ _ _ _ => exact Or.inl rfl
   | save _ _ => exact Or.inl rfl
+  | rmTree _ => exact Or.inl rfl
 
 /-- the database after the effects `es` is the replay of a sublist of `es` -/
 theorem foldl_applyW_db (fixed : Bool) (u : User) (es : List Eff) (wm : World × Spec) :
@@ -140,5 +144,27 @@ theorem step_preserves (P : Spec → Prop) (hP : ∀ c e, P c → P (applyDb e c
     induction es generalizing d with
     | nil => exact h
     | cons e es ih => exact ih _ (hP d e h)
+
+/-- a command that emits nothing leaves the database, its modification times and the installation
+directories exactly as they were (the caches may have been rebuilt while loading) -/
+theorem step_of_empty_trace (fixed : Bool) (w : World) (u : User) (c : Cmd) (crash : Option Nat)
+    (h : ∀ p : Proc, p.tr = [] → (run w.nst c p).2.tr = []) :
+    (stepG fixed w (.run u c crash)).w.db = w.db ∧ (stepG fixed w (.run u c crash)).w.dirs = w.dirs ∧
+      (stepG fixed w (.run u c crash)).w.touch = w.touch := by
+  simp only [stepG]
+  obtain ⟨hdb, hdirs, _⟩ := load_db w u c.self
+  have ht := load_touch w u c.self
+  generalize load w u c.self = l at hdb hdirs ht
+  obtain ⟨m, fl, w1⟩ := l
+  dsimp only at hdb hdirs ht ⊢
+  have htr := h ⟨w1.db, m, w1.dirs, []⟩ rfl
+  rw [htr]
+  cases crash with
+  | none => exact ⟨hdb, hdirs, ht⟩
+  | some k =>
+    have : cutAfterDb [] k = [] := by cases k <;> rfl
+    dsimp only
+    rw [this]
+    exact ⟨hdb, hdirs, ht⟩
 
 end EupsModel.Cache
